@@ -57,6 +57,8 @@ def decided(kind, cname, total, succ, fail):
 def branch(beh, t, i):
     if beh == "ok":
         return [{"k": "step", "fn": {"sleep": t, "then": {"ret": f"v{i}"}}}]
+    if beh == "okbig":
+        return [{"k": "step", "fn": {"sleep": t, "then": {"bytes": 150_000}}}]
     if beh == "fail":
         return [{"k": "step", "fn": {"sleep": t, "then": {"raise": "Boom", "msg": f"err{i}"}}, "retry": "none"}]
     if beh == "block":
@@ -115,6 +117,14 @@ def programs(tier):
                                ("tol0", ["fail", "block"], [1, 0]), ("all_successful", ["block", "fail"], [0, 1]),
                                ("min1tol1", ["fail", "ok", "block"], [1, 2, 0]), ("first", ["fail", "ok", "block"], [1, 2, 0])):
         out.append(make("par", len(behs), cname, None, behs, times))
+    # oversized batch results (recorded as a summary, rebuilt from the children on replay)
+    for cname, behs, times in (("tol1", ["okbig", "fail", "okbig"], [1, 2, 3]), ("pct50", ["okbig", "okbig", "fail"], [1, 2, 3]),
+                               ("min2", ["okbig", "okbig", "block"], [1, 2, 0]), ("first", ["okbig", "block"], [1, 0]),
+                               ("min1tol1", ["fail", "okbig", "okbig"], [1, 2, 3]), ("all_completed", ["okbig", "okbig"], [1, 2])):
+        p = make("par", len(behs), cname, None, behs, times)
+        if cname in ("first",):
+            p["seq"][0]["branches"][0] = [{"k": "step", "fn": {"sleep": 1, "then": {"bytes": 300_000}}}]
+        out.append(p)
     for cname in ("all_completed", "first", "tol0", "default"):
         out.append(make("par", 2, cname, None, ["park", "ok"], [0, 1]))
         out.append(make("par", 2, cname, None, ["park", "fail"], [0, 1]))
@@ -161,6 +171,9 @@ def judge(d, _=None):
             elif e.get("exit") == "raise" and i not in truth:
                 pass
     # failures: from step observations inside the branch
+    for i_, b_ in enumerate(behs):
+        if b_ == "okbig" and truth.get(i_, ("",))[0] != "ok":
+            pass
     for o in d.world.obs:
         if o["kind"] == "exc" and len(o["path"]) == 3 and o["path"][:1] == (1,) and o["op"] == "step":
             i = int(o["path"][1][1:])
@@ -174,7 +187,7 @@ def judge(d, _=None):
         if it["status"] == "SUCCEEDED":
             if not tr or tr[0] != "ok":
                 V(out, "C09", "item-reported-succeeded-but-branch-did-not", f"{d.program['name']}: item {i} {it} truth {tr}")
-            elif tr[2] != f"list[{it['result'][5:] if False else ''}" and tr[2] != it["result"]:
+            elif tr[2] != it["result"]:
                 V(out, "C09", "item-result-differs-from-branch-result",
                   f"{d.program['name']}: item {i} reports {it['result']} but the branch returned {tr[2]}")
         elif it["status"] == "FAILED":
